@@ -145,6 +145,22 @@ func NewProtocol[EK elgamal.EncryptionKey[EK, G, S], G algebra.PrimeGroupElement
 	return &Protocol[G, S]{maurerProtocol}, nil
 }
 
+// Verify checks an elcomop proof. The statement and the commitment are pairs of group
+// elements; a decoded value with any other number of components is rejected here, because
+// the generic Maurer verification combines them component-wise.
+func (p *Protocol[G, S]) Verify(statement *Statement[G, S], commitment *Commitment[G, S], challengeBytes sigma.ChallengeBytes, response *Response[G, S]) error {
+	if statement == nil || commitment == nil || statement.X == nil || commitment.A == nil {
+		return proofs.ErrInvalidArgument.WithMessage("invalid arguments")
+	}
+	if statement.X.Arity().Uint64() != 2 || commitment.A.Arity().Uint64() != 2 {
+		return proofs.ErrInvalidArgument.WithMessage("statement and commitment must have two components")
+	}
+	if err := p.Protocol.Verify(statement, commitment, challengeBytes, response); err != nil {
+		return errs.Wrap(err)
+	}
+	return nil
+}
+
 type anchor[G algebra.PrimeGroupElement[G, S], S algebra.PrimeFieldElement[S]] struct {
 	l  *num.Nat
 	id *constructions.FiniteDirectProductGroupElement[G, S]
